@@ -28,6 +28,10 @@ type compiler struct {
 
 	// imported modules already visited, imports may be circular
 	imported map[*Module]struct{}
+
+	// typedefs whose own type is being compiled, to catch a typedef defined
+	// in terms of itself
+	typedefsInProgress map[*Typedef]struct{}
 }
 
 func (c *compiler) module(y *Module) error {
@@ -409,7 +413,16 @@ func (c *compiler) findTypedef(y *Type, parent Definition, qualifiedIdent string
 	}
 
 	// this will recurse if typedef references another typedef
-	if err := c.compile(found); err != nil {
+	if _, circular := c.typedefsInProgress[found]; circular {
+		return nil, errors.New(SchemaPath(parent) + " - typedef " + y.ident + " is defined in terms of itself")
+	}
+	if c.typedefsInProgress == nil {
+		c.typedefsInProgress = make(map[*Typedef]struct{})
+	}
+	c.typedefsInProgress[found] = struct{}{}
+	err := c.compile(found)
+	delete(c.typedefsInProgress, found)
+	if err != nil {
 		return nil, err
 	}
 
